@@ -31,9 +31,9 @@ theorem updTail_spec (P : Params) (hP : P.OK) (n0 : Nat) (s : Sketch) (v : Nat) 
   apply SafeF.bind' (internalUpdate_spec (S := foot (owned s) n0) s coins h1 (hS _ hbo)
     (fun x hx => hSn x (by omega)) ⟨hb, lok, il.transfer sob⟩ hm2 (by omega)
     (fun x hx => by rw [sb.ids, hid] at hx; rw [hnx1]; exact hwf x hx))
-  intro r h2 ⟨b1, hb1, lok1, e0, il2, hidx, re, sm, hn1, hSb1⟩ _
+  intro r h2 ⟨b1, hb1, lok1, e0, il2, hidx, re, sm, hn1, hSb1, hw1, hg1⟩ _
   obtain ⟨s1, index, c1⟩ := r
-  simp only at hb1 lok1 e0 il2 hidx sm hn1 ⊢
+  simp only at hb1 lok1 e0 il2 hidx sm hn1 hw1 hg1 ⊢
   apply step_deref_eq hb1
   apply vstep_construct v il2.cells hidx (il2.raw index (by omega)) hSb1
   intro h3 sb3 _ hst3
@@ -101,6 +101,21 @@ theorem updTail_spec (P : Params) (hP : P.OK) (n0 : Nat) (s : Sketch) (v : Nat) 
       simp only; rw [sm.self, self4.st, self4.st]; exact hmm
     · intro _
       simp only; rw [e0]; exact hidx
+    · have := u.wt
+      unfold W at hw1
+      simp only; omega
+    · have hwt := u.wt
+      have hpw := u.pw
+      unfold LevelGrowth W at hg1
+      simp only
+      rcases hg1 with e | ⟨e, hge⟩
+      · rw [e]
+        rcases hpw with e' | e'
+        · exact Or.inl e'
+        · right; omega
+      · right
+        rw [e, Nat.add_sub_cancel]
+        omega
   · refine Owns.of_delta (fun x => (x = b ∧ b1 ≠ b) ∨ s.view = some x) (fun x => x = b1 ∧ b1 ≠ b) (fun x => ?_)
       (fun x hx => hid ▸ (inv.owned_ids x hx).1) (fun x d => ?_) (fun x a => ?_) (fun x => ?_)
     · rw [hid4, sb3.ids]
